@@ -99,6 +99,18 @@ class C10(Spec):
                 forms.append(v.replace("{k}", "k1")); forms.append(v.replace("{k}", ""))
             for form in dict.fromkeys(forms):
                 cases.append(SETUP_P + [f"C 1 {form}", "PUMP"] + PROBE + ["PUMP", "C 1 set after 1", "PUMP"] + PROBE)
+        # STORED records that later requests are evaluated against: degenerate permission lists (kinds without a key pattern, a pattern without
+        # kinds, separators only, nothing), users without a list, written with the administrator's commands and raw into the `$$` keys —
+        # then every kind of data command from a session that is judged by that record (the default user's, a named user's)
+        lists = ["i", "rw", "r|w", "|", "r ", " k*", "rwix", "r k*|", "|r k*", "x", "r k*|w", "r ,", ",", "r *|i"]
+        cmds = ["get k", "set k 1", "increment x", "remove k", "keys", "watch k", "set-safe k 0 z", "resolve 1 t k 1 v"]
+        for pl in lists:
+            for who in ("all", "u"):
+                for raw in (False, True):
+                    store = f"C 1 set $$permission_${who} {pl}" if raw else f"C 1 set-permissions {who} {pl}"
+                    c = list(SETUP) + ["C 1 use-db t tok", "C 1 create-user u upw", store, "SESS 7", "C 7 use-db t tok" if who == "all" else "C 7 use-db t u upw"]
+                    for cm in cmds: c += [f"C 7 {cm}"]
+                    cases.append(c + ["C 3 set probe pv", "C 3 get probe"])     # (the probe uses the OTHER database: on this one the record may refuse every session judged as the default user — the administrator's too)
         # stateful numeric boundaries: a stored boundary value / version followed by a boundary delta
         nums = [t for t in TOKENS if re.fullmatch(r"[+-]?[0-9]+", t)]
         for b in nums:
@@ -119,7 +131,7 @@ class C10(Spec):
                 if r.startswith("K PANIC"): fails.append(Failure("replication-loop-died", f"{inp[:80]}: {r[:160]} (the command before it was answered: {last_reply})"))
             if inp.startswith("C "): last_reply = next((x for x in rest if x.startswith("R ")), "R ?")[:60]
             if any(d.startswith("D poisoned") for d in dump): fails.append(Failure("lock-poisoned", f"after {inp[:80]}"))
-            if inp == "C 9 get probe":
+            if inp in ("C 9 get probe", "C 3 get probe"):
                 r = next((x for x in rest if x.startswith("R ")), "R ?")
                 if not r.startswith("R value probe") or not r.endswith(" pv"):
                     fails.append(Failure("probe-failed", f"{r[:120]}"))
